@@ -80,7 +80,13 @@ class MeshSpec:
         p1, p2 = self.corners()
         return df.Region(p1=p1, p2=p2, dims=self.dims, units=self.units, **kw)
 
-    def mesh(self, subregions=None, bc="", by_cell=False):
+    def mesh(self, subregions=None, bc=None, by_cell=False):
+        # boundary conditions the caller does not care about are drawn by the generator:
+        # hardly any property mentions them, so hardly any result may depend on them
+        if bc is None:
+            bc = getattr(self, "bc", "")
+            if bc not in ("", "neumann", "dirichlet") and not set(bc) <= set(self.dim_names):
+                bc = ""  # the workload renamed the directions after the draw
         kw = {"cell": self.cell.tolist()} if by_cell else {"n": [int(k) for k in self.n]}
         if self.dyadic and not by_cell and _HIST_RNG is not None and _HIST_RNG.random() < 0.6:
             m = None
@@ -259,7 +265,9 @@ def rand_meshspec(
         dims = None
     units = rand_units(rng, nd)
     flip = rng.random(nd) < 0.3
-    return MeshSpec(pmin, cell, n, dims, units, flip, int_corners, dyadic)
+    spec = MeshSpec(pmin, cell, n, dims, units, flip, int_corners, dyadic)
+    spec.bc = rand_bc(rng, spec.dim_names, p_none=0.7)
+    return spec
 
 
 def rand_box(rng, n, min_size=1):
